@@ -182,6 +182,17 @@ PROPS["C16"] = dict(
     assumptions=COMMON_ASSUME,
 )
 
+PROPS["C14"] = dict(
+    title="management API never blocks the data plane",
+    level="fault_enumeration",
+    technique="end-to-end stall-point grid with concurrent API pollers and fresh-connection probes; latency bound calibrated on an unstalled baseline of the same run; bounded-recovery phase",
+    text="After measuring API and fresh-tunnel latencies without stallers, the monitor places clients stopped after k bytes of a valid handshake (k across the whole handshake) for http, socks5, socks5+auth, socks4, the same inside TLS, half-done TLS handshakes, a QUIC handshake whose client packets stop after the first one (dropping UDP relay), tunnels whose reader stopped while the origin blasts data, plus dozens of idle connections. With the stallers in place, pollers on every API endpoint (status, live, history, rules GET/POST, metrics, logrotate), one fresh tunnel per listener kind every 50 ms, connection churn and the first QUIC connection of a new peer run concurrently; every call must complete within max(2 s, 20 x baseline p99). After the stallers go away everything must be back to normal.",
+    note="trusted: wall-clock bound on a loaded machine (baseline p99 > 1 s => inconclusive); interleavings are sampled by the scheduler, reach comes from the stall-point grid",
+    design_ref="DESIGN.md 3 C14",
+    steps=[e2e("c14")],
+    assumptions=COMMON_ASSUME,
+)
+
 NOT_YET = {}
 
 
